@@ -2,7 +2,7 @@
 """copies confirmed seeded changes from /tmp/seed into /verif/seeded/<PROP>-<m>/ (patch.diff, demonstration, meta.json)"""
 import json, os, shutil, stat, sys
 SEED=os.environ.get('SEEDOUT','/tmp/seed'); DST='/verif/seeded'
-RENAME={'/tmp/seed':{'m1':'m1','m2':'m2'}}.get(SEED) or ({'m1':'m13','m2':'m14'} if SEED.endswith('seed7') else {'m1':'m11','m2':'m12'} if SEED.endswith('seed6') else {'m1':'m9','m2':'m10'} if SEED.endswith('seed5') else {'m1':'m5','m2':'m6'} if SEED.endswith('seed3') else {'m1':'m7','m2':'m8'} if SEED.endswith('seed4') else {'m1':'m3','m2':'m4'})
+RENAME={'/tmp/seed':{'m1':'m1','m2':'m2'}}.get(SEED) or ({'m1':'m15','m2':'m16'} if SEED.endswith('seed8') else {'m1':'m13','m2':'m14'} if SEED.endswith('seed7') else {'m1':'m11','m2':'m12'} if SEED.endswith('seed6') else {'m1':'m9','m2':'m10'} if SEED.endswith('seed5') else {'m1':'m5','m2':'m6'} if SEED.endswith('seed3') else {'m1':'m7','m2':'m8'} if SEED.endswith('seed4') else {'m1':'m3','m2':'m4'})
 NEEDS = {
  'C01-m1': 'SpVecGF2::operator+ "prepend" fast path guarded by <= instead of <: needs an out-of-order support update with max(S_k) == min(S_l) (only through the sparsest-support swap of mcb_sva_signed) plus a weight tie; ~0.1-2% of small graphs',
  'C01-m2': 'compute_first_in_path no longer labels the root: needs a tree root other than vertex 0 whose non-tree edge detours through vertex 0; fvs/iso variants emit an empty cycle',
